@@ -167,6 +167,8 @@ type Run struct {
 	NoKnown      bool // replay/minimise mode: known findings are reported like any violation
 	PendingDogfoodUndelegations []string
 	LastNST *NSTUpdate
+	ExtraHolds map[string]uint64 // record key -> holds placed by the simulated second holder
+	ReleaseErr []string          // errors of the second holder's releases
 }
 
 func (r *Run) Logf(f string, a ...interface{}) {
